@@ -261,6 +261,25 @@ def j_inputs(ctx, fo, n_inputs, max_len, max_pat, chk, fills=("zero",), kinds=KI
         text = rand_text(rng, n)
         cs, norm = rng.random() < 0.4, rng.random() < 0.5
         pat = rand_pattern(rng, fo, text, rng.randint(1, max_pat), cs, norm)
+        r0 = rng.random()
+        if r0 < 0.12 and max_len >= 60:
+            # gappy lines: the pattern's characters lie far apart in a filler that holds none of them (long gaps drive the
+            # running score of the dynamic programme down to its floor), with an early decoy occurrence now and then
+            letters = rng.sample(["a", "b", "c", "e", "1", "2"], rng.randint(2, min(4, max(2, max_pat))))
+            filler = rng.choice(["_", "-", ".", "A", "han"] if not cs else ["_", "-", "."])
+            text = []
+            for ch in letters:
+                text += [filler] * rng.choice([0, 1, 5, 20, 34, 35, 36, 40, 45, 60, 80]) + [ch]
+            if rng.random() < 0.4:
+                text = letters[:rng.randint(1, len(letters))] + text
+            text = (text + [filler] * rng.choice([0, 3]))[:max_len]
+            pat = [fo.fold(fo.fold(x, cs, norm), cs, norm) for x in letters]
+        elif r0 < 0.2:
+            # white space of every kind around the line (prefix / suffix / equal terms trim it)
+            ws = [w for w in ["VT", "FF", " ", "TAB", "CR"] if w in fo.space] or [" "]
+            text = [rng.choice(ws) for _ in range(rng.randint(0, 3))] + [x for x in text if x not in fo.space][:max(1, max_len - 6)] + \
+                   [rng.choice(ws) for _ in range(rng.randint(0, 3))]
+            pat = rand_pattern(rng, fo, text, rng.randint(1, max_pat), cs, norm)
         sch = rng.choice(["default", "default", "path", "history"])
         for kind in kinds:
             for fwd in (True, False):
